@@ -214,6 +214,45 @@ pub fn run(opts: &Opts) -> Report {
         }
         pending.push(Pending { request: format!("neg {}", show_val(a)), implementation: direct, level: 1, input });
     }
+    // runs of unary minus written directly in front of an operand: each sign is one negation (`--x` is -(-x), it is
+    // an error when the inner negation is: MIN, any uint), bound and literal
+    let neg1 = |v: &CelValue| -> Option<CelValue> {
+        match v {
+            CelValue::Int(i) => i.checked_neg().map(CelValue::Int),
+            CelValue::Float(f) => Some(CelValue::Float(-f)),
+            _ => None,
+        }
+    };
+    for a in pool::all_values().iter().filter(|v| !matches!(v, CelValue::Err(_))) {
+        for n in 2..=4usize {
+            let mut exp = Some(a.clone());
+            for _ in 0..n {
+                exp = exp.and_then(|v| neg1(&v));
+            }
+            let expected = match exp {
+                Some(v) => show_val(&v),
+                None => "E".to_string(),
+            };
+            let mut srcs = vec![(format!("{}x", "-".repeat(n)), vec![("x".to_string(), a.clone())])];
+            if let Some(l) = literal(a) {
+                srcs.push((format!("{}{}", "-".repeat(n), l), vec![]));
+            }
+            for (src, binds) in srcs {
+                let got = exec_src(&src, &binds);
+                rep.count(Some(&format!("{}|{}", src, show_val(a))));
+                rep.bump(&format!("neg-run:{}:{}", n, pool::type_tag(a)));
+                if l1(&got) != expected {
+                    rep.oracle_fail(&format!("{} with x = {}", src, show_val(a)), &got, &expected, "a run of unary minus signs is that many exact negations");
+                }
+                pending.push(Pending {
+                    request: format!("exec {} {}", crate::api::env_wire(&[], &binds, &[]), crate::wire::hex(src.as_bytes())),
+                    implementation: format!("{} L:0", got),
+                    level: 3,
+                    input: format!("{} with x = {}", src, show_val(a)),
+                });
+            }
+        }
+    }
     rep.exhaustive = true;
     // random operands
     let n = if opts.thorough { 400_000 } else { 20_000 };
